@@ -64,6 +64,9 @@ pub struct World {
     /// for a racing / combo op: (node, instant, the order in which its inputs, the worker's polls,
     /// the handler's timer entries and its looks at the worker's state occurred at that instant)
     last_sched: Option<(usize, u128, String)>,
+    /// a node with a slow socket was started: its task interleavings are not modelled, every further
+    /// line is excluded from the lockstep comparison (the oracles still apply)
+    force_unmodelled: bool,
 }
 
 /// an API call, carried out now or from a task that wakes at the op's instant
@@ -149,7 +152,7 @@ impl World {
     fn new() -> World {
         let notify = Arc::new(Notify::new());
         btdht::verif::trace_enable(Some(notify.clone()));
-        World { clock: VClock::start(), notify, nodes: BTreeMap::new(), by_addr: HashMap::new(), names: vec![], name_idx: HashMap::new(), known: HashSet::new(), toks: vec![], tok_known: HashSet::new(), last: vec![], last_sched: None }
+        World { clock: VClock::start(), notify, nodes: BTreeMap::new(), by_addr: HashMap::new(), names: vec![], name_idx: HashMap::new(), known: HashSet::new(), toks: vec![], tok_known: HashSet::new(), last: vec![], last_sched: None, force_unmodelled: false }
     }
     pub fn now(&self) -> u128 { self.clock.now_ns() }
 
@@ -362,7 +365,7 @@ impl World {
             s.push_str(&format!(" ~hold ~sched={}", sch.trim_end_matches(",CUT")));
             if sch.ends_with("CUT") { ambiguous = true; }
         }
-        if ambiguous { s.push_str(" ~unmodelled"); }
+        if ambiguous || self.force_unmodelled { s.push_str(" ~unmodelled"); }
         s
     }
 
@@ -629,6 +632,7 @@ impl World {
                 let sock = MemSocket::new(addr);
                 *sock.trace_sends.lock().unwrap() = true;
                 if let Some(f) = kv(&w, "fail") { if f != "-" { for a in f.split(',') { if let Some(a) = parse_addr(a) { sock.fail.lock().unwrap().insert(a); } } } }
+                if let Some(ms) = kv(&w, "slow").and_then(|x| x.parse::<u64>().ok()) { *sock.send_delay_ms.lock().unwrap() = ms; self.force_unmodelled = true; }
                 let dht = b.start(sock.clone()).unwrap();
                 self.by_addr.insert(addr, k);
                 self.nodes.insert(k, RealNode { dht, sock, id, ro, waiters: 0, streams: 0 });
